@@ -1600,6 +1600,22 @@ func (l *lexer) linebreak() bool {
 			} else {
 				l.mark(0)
 			}
+		case '\\':
+			if hash {
+				l.b.WriteRune(r)
+				break
+			}
+			// escape character
+			l.mark(-1)
+			n := len(l.word)
+			if !l.scanQuote(r) {
+				return false
+			}
+			if len(l.word) != n {
+				// an escaped character begins the next word
+				return true
+			}
+			// line continuation
 		default:
 			if !hash {
 				l.unread()
